@@ -771,7 +771,7 @@ class Parser:
 
         return meta
 
-    def parse_section_marker(self) -> Section | None:
+    def parse_section_marker(self, base_indent: int = 0) -> Section | None:
         """Parse §NUMBER::NAME or §IDENTIFIER::NAME section marker with nested children.
 
         Pattern: §NUMBER[SUFFIX]::NAME[bracket_tail] or §IDENTIFIER::[NAME] followed by indented children.
@@ -862,8 +862,8 @@ class Parser:
                 pre_indent_comments.append(self.current().value)
             self.advance()
 
-        # Expect indentation for children
-        if self.current().type == TokenType.INDENT:
+        # Expect indentation for children (deeper than the section marker's own line, see parse_section)
+        if self.current().type == TokenType.INDENT and self.current().value > base_indent:
             child_indent = self.current().value
             self.advance()
 
@@ -972,7 +972,7 @@ class Parser:
         """
         # Check for section marker first
         if self.current().type == TokenType.SECTION:
-            section = self.parse_section_marker()
+            section = self.parse_section_marker(base_indent)
             if section and leading_comments:
                 section.leading_comments = leading_comments
             return section
@@ -1091,8 +1091,10 @@ class Parser:
                     )
                 )
 
-            # Expect indentation for children
-            elif self.current().type == TokenType.INDENT:
+            # Expect indentation for children. Only a line indented deeper than the block's own
+            # line starts its body; a line at the same (or a shallower) indent is a sibling, so an
+            # empty nested block does not adopt the fields that follow it.
+            elif self.current().type == TokenType.INDENT and self.current().value > base_indent:
                 child_indent = self.current().value
                 self.advance()
 
